@@ -56,7 +56,7 @@ NoId(lg) == [i \in 1..Len(lg) |-> <<lg[i][2], lg[i][3]>>]
 ObsOK == (Idle /\ l > 1) =>
             LET e == Evs[l - 1] IN
             /\ ret = e.ret /\ enabled = e.enabled
-            /\ (IF WithIds THEN log = e.log /\ (e.queue # <<-1>> => QueueIds = e.queue) ELSE NoId(log) = NoId(e.log))
+            /\ (IF WithIds THEN log = e.log /\ (e.queue # <<0 - 1>> => QueueIds = e.queue) ELSE NoId(log) = NoId(e.log))
                \* queue = <<-1>>: the recorder could not see the pending queue (private attribute re-laid out)
             /\ reg = ToSet(e.reg) /\ alive = ToSet(e.alive)
 \* while the call is still running, the callbacks made so far must be a prefix of the recorded log: wrong
